@@ -15,6 +15,7 @@ package main
 import (
 	"bytes"
 	"context"
+	"encoding/binary"
 	"encoding/json"
 	"fmt"
 	"io"
@@ -41,6 +42,7 @@ type c36Turn struct {
 type c36Script struct {
 	Fail  bool      `json:"fail,omitempty"`
 	N     int       `json:"n"` // u_blob: result length
+	Var   int       `json:"var,omitempty"` // stream methods: output schema variant built by the init handler for this call
 	Turns []c36Turn `json:"turns,omitempty"`
 }
 type c36Item struct {
@@ -68,6 +70,7 @@ func c36IsStream(m string) bool { return m == "prod" || m == "exch" }
 
 // ---------------------------------------------------------------- scripted server
 type c36State struct {
+	Var      int
 	Exchange bool
 	Turns    []c36Turn
 	Pos      int
@@ -97,12 +100,12 @@ func (st *c36State) turn(in arrow.RecordBatch, out *vgirpc.OutputCollector) erro
 	}
 	switch t.Act {
 	case "emit":
-		return out.Emit(int64Batch(outSchemaV, c36Repeat(t.Value+insum, t.Rows)))
+		return out.Emit(c36OutBatch(st.Var, t.Value+insum, t.Rows))
 	case "emit2":
-		if err := out.Emit(int64Batch(outSchemaV, c36Repeat(t.Value+insum, t.Rows))); err != nil {
+		if err := out.Emit(c36OutBatch(st.Var, t.Value+insum, t.Rows)); err != nil {
 			return err
 		}
-		return out.Emit(int64Batch(outSchemaV, c36Repeat(t.Value+insum, t.Rows)))
+		return out.Emit(c36OutBatch(st.Var, t.Value+insum, t.Rows))
 	case "noemit":
 		return nil
 	case "panic":
@@ -129,6 +132,93 @@ func init() {
 	vgirpc.RegisterStateType(&c36ProdState{})
 }
 
+// Output schema variants. The init handler builds a FRESH schema object for every call
+// (a dynamic method does), so nothing may be remembered per schema beyond what the
+// schema says in full. Variants 0-3 share one Arrow fingerprint (the fingerprint ignores
+// field and schema metadata), so do 4 and 5 (it ignores the width of fixed_size_binary).
+const c36NVar = 6
+
+func c36OutSchema(v int) *arrow.Schema {
+	switch v {
+	case 1:
+		return arrow.NewSchema([]arrow.Field{{Name: "v", Type: arrow.PrimitiveTypes.Int64, Metadata: arrow.NewMetadata([]string{"unit"}, []string{"a"})}}, nil)
+	case 2:
+		return arrow.NewSchema([]arrow.Field{{Name: "v", Type: arrow.PrimitiveTypes.Int64, Metadata: arrow.NewMetadata([]string{"unit"}, []string{"b"})}}, nil)
+	case 3:
+		md := arrow.NewMetadata([]string{"origin"}, []string{"c36"})
+		return arrow.NewSchema([]arrow.Field{{Name: "v", Type: arrow.PrimitiveTypes.Int64}}, &md)
+	case 4:
+		return arrow.NewSchema([]arrow.Field{{Name: "d", Type: &arrow.FixedSizeBinaryType{ByteWidth: 16}}}, nil)
+	case 5:
+		return arrow.NewSchema([]arrow.Field{{Name: "d", Type: &arrow.FixedSizeBinaryType{ByteWidth: 32}}}, nil)
+	}
+	return arrow.NewSchema([]arrow.Field{{Name: "v", Type: arrow.PrimitiveTypes.Int64}}, nil)
+}
+
+// c36OutBatch: rows values v under variant var; a fixed_size_binary row is the
+// little-endian int64 followed by zero padding.
+func c36OutBatch(v int, val int64, rows int) arrow.RecordBatch {
+	schema := c36OutSchema(v)
+	fsb, ok := schema.Field(0).Type.(*arrow.FixedSizeBinaryType)
+	if !ok {
+		return int64Batch(schema, c36Repeat(val, rows))
+	}
+	b := array.NewFixedSizeBinaryBuilder(memory.DefaultAllocator, fsb)
+	defer b.Release()
+	row := make([]byte, fsb.ByteWidth)
+	binary.LittleEndian.PutUint64(row, uint64(val))
+	for i := 0; i < rows; i++ {
+		b.Append(row)
+	}
+	arr := b.NewArray()
+	defer arr.Release()
+	return array.NewRecordBatch(schema, []arrow.Array{arr}, int64(rows))
+}
+
+// c36Render writes a schema out in full: names, types (with widths), nullability,
+// field metadata and schema metadata.
+func c36Render(s *arrow.Schema) string {
+	md := func(m arrow.Metadata) string {
+		var kv []string
+		for i, k := range m.Keys() {
+			kv = append(kv, k+"="+m.Values()[i])
+		}
+		sort.Strings(kv)
+		return "{" + strings.Join(kv, ",") + "}"
+	}
+	var fs []string
+	for _, f := range s.Fields() {
+		fs = append(fs, fmt.Sprintf("%s:%s:null=%v:%s", f.Name, f.Type.String(), f.Nullable, md(f.Metadata)))
+	}
+	return strings.Join(fs, ";") + "|" + md(s.Metadata())
+}
+
+var (
+	c36RenderOnce sync.Once
+	c36RenderIDs  map[string]int
+)
+
+// c36SchemaID numbers the schema a batch was decoded under: the variant, 50 for the
+// u_blob result, 99 for anything else.
+func c36SchemaID(s *arrow.Schema) int {
+	c36RenderOnce.Do(func() {
+		c36RenderIDs = map[string]int{}
+		for v := 0; v < c36NVar; v++ {
+			c36RenderIDs[c36Render(c36OutSchema(v))] = v
+		}
+		b, err := vgirpc.VerifC36ResultBatch(c36Server(nil), "u_blob", []byte{1})
+		if err != nil {
+			panic(err)
+		}
+		c36RenderIDs[c36Render(b.Schema())] = 50
+		b.Release()
+	})
+	if id, ok := c36RenderIDs[c36Render(s)]; ok {
+		return id
+	}
+	return 99
+}
+
 // scripts are looked up by the request id the client sends ("c<i>")
 func c36Server(calls []c36Call) *vgirpc.Server {
 	s := vgirpc.NewServer()
@@ -151,14 +241,14 @@ func c36Server(calls []c36Call) *vgirpc.Server {
 		if sc.Fail {
 			return nil, &vgirpc.RpcError{Type: "ValueError", Message: "scripted init failure"}
 		}
-		return &vgirpc.StreamResult{OutputSchema: outSchemaV, State: &c36ProdState{c36State{Turns: sc.Turns}}}, nil
+		return &vgirpc.StreamResult{OutputSchema: c36OutSchema(sc.Var), State: &c36ProdState{c36State{Var: sc.Var, Turns: sc.Turns}}}, nil
 	})
 	vgirpc.Exchange(s, "exch", outSchemaV, inSchemaX, func(_ context.Context, cc *vgirpc.CallContext, p PInt) (*vgirpc.StreamResult, error) {
 		sc := script(cc)
 		if sc.Fail {
 			return nil, &vgirpc.RpcError{Type: "ValueError", Message: "scripted init failure"}
 		}
-		return &vgirpc.StreamResult{OutputSchema: outSchemaV, InputSchema: inSchemaX, State: &c36ExchState{c36State{Exchange: true, Turns: sc.Turns}}}, nil
+		return &vgirpc.StreamResult{OutputSchema: c36OutSchema(sc.Var), InputSchema: inSchemaX, State: &c36ExchState{c36State{Var: sc.Var, Exchange: true, Turns: sc.Turns}}}, nil
 	})
 	return s
 }
@@ -189,22 +279,30 @@ func c36Measure(b arrow.RecordBatch) c36Sz {
 	return c36Sz{Buf: vgirpc.VerifC35BatchBufferSize(b), Est: int64(vgirpc.VerifEstimateSerializedSize(b)), Total: int64(ln)}
 }
 
-func c36SizeInt(rows int) c36Sz {
+func c36SizeInt(rows int) c36Sz { return c36SizeOut(0, rows) }
+
+// c36SizeOut measures the batch the state emits under variant v (variant 0 is also the
+// size of the client's own {x:int64} batches).
+func c36SizeOut(v, rows int) c36Sz {
 	c36SzMu.Lock()
 	defer c36SzMu.Unlock()
-	if z, ok := c36SzInt[rows]; ok {
+	key := v<<16 | rows
+	if z, ok := c36SzInt[key]; ok {
 		return z
 	}
-	bx := int64Batch(inSchemaX, c36Repeat(7, rows))
-	bv := int64Batch(outSchemaV, c36Repeat(7, rows))
-	zx, zv := c36Measure(bx), c36Measure(bv)
-	bx.Release()
+	bv := c36OutBatch(v, 7, rows)
+	zv := c36Measure(bv)
 	bv.Release()
-	if zx != zv {
-		panic(fmt.Sprintf("c36: x and v batches of %d rows differ in size: %v %v", rows, zx, zv))
+	if v == 0 {
+		bx := int64Batch(inSchemaX, c36Repeat(7, rows))
+		zx := c36Measure(bx)
+		bx.Release()
+		if zx != zv {
+			panic(fmt.Sprintf("c36: x and v batches of %d rows differ in size: %v %v", rows, zx, zv))
+		}
 	}
-	c36SzInt[rows] = zx
-	return zx
+	c36SzInt[key] = zv
+	return zv
 }
 
 func c36SizeBlob(n int) c36Sz {
@@ -229,6 +327,7 @@ func c36SizeBlob(n int) c36Sz {
 // ---------------------------------------------------------------- observables
 type c36Frame struct {
 	Kind  string `json:"kind"` // data | exc | other
+	Sch   int    `json:"sch"`  // schema the batch was decoded under (c36SchemaID)
 	Units int64  `json:"units,omitempty"`
 	Sum   int64  `json:"sum,omitempty"`
 	Ptr   bool   `json:"ptr,omitempty"`
@@ -245,6 +344,12 @@ type c36CallObs struct {
 }
 
 func c36View(rec arrow.RecordBatch) (units, sum int64, ok bool) {
+	// a batch decoded under a schema it was not written with may not even be readable
+	defer func() {
+		if recover() != nil {
+			units, sum, ok = 0, 0, false
+		}
+	}()
 	if rec.NumCols() != 1 {
 		return 0, 0, false
 	}
@@ -252,6 +357,13 @@ func c36View(rec arrow.RecordBatch) (units, sum int64, ok bool) {
 	case *array.Int64:
 		for i := 0; i < c.Len(); i++ {
 			sum += c.Value(i)
+		}
+		return int64(c.Len()), sum, true
+	case *array.FixedSizeBinary:
+		for i := 0; i < c.Len(); i++ {
+			if v := c.Value(i); len(v) >= 8 {
+				sum += int64(binary.LittleEndian.Uint64(v))
+			}
 		}
 		return int64(c.Len()), sum, true
 	case *array.Binary:
@@ -422,7 +534,7 @@ func (c *c36Client) readResponses(i int) {
 									ln, _ = strconv.ParseUint(v, 10, 64)
 								}
 							}
-							fr = c36Frame{Kind: "data", Units: u, Sum: s, Ptr: true, Off: off, Len: ln}
+							fr = c36Frame{Kind: "data", Sch: c36SchemaID(res.Schema()), Units: u, Sum: s, Ptr: true, Off: off, Len: ln}
 						}
 						if release {
 							got = append(got, off)
@@ -435,7 +547,7 @@ func (c *c36Client) readResponses(i int) {
 				frames = append(frames, fr)
 			case f.Kind == "data":
 				if u, s, ok := c36View(rec); ok {
-					frames = append(frames, c36Frame{Kind: "data", Units: u, Sum: s})
+					frames = append(frames, c36Frame{Kind: "data", Sch: c36SchemaID(rec.Schema()), Units: u, Sum: s})
 				} else {
 					frames = append(frames, c36Frame{Kind: "other", Note: "data batch of another shape"})
 				}
@@ -563,7 +675,7 @@ func c36CallTerm(c c36Call) string {
 	turns := ListOf(c.Script.Turns, func(t c36Turn) string {
 		return App("C36.Build_turn", N(uint64(t.Rows)), Z(t.Value), c36Ctor("act", t.Act))
 	})
-	sc := App("C36.Build_script", Bool(c.Script.Fail), N(uint64(c.Script.N)), turns)
+	sc := App("C36.Build_script", Bool(c.Script.Fail), N(uint64(c.Script.N)), N(uint64(c.Script.Var)), turns)
 	items := ListOf(c.Items, func(it c36Item) string {
 		return App("C36.Build_item", c36Ctor("wish", it.Wish), N(uint64(it.Rows)), Z(it.Val))
 	})
@@ -581,7 +693,7 @@ func c36TabTerm(t [][2]uint64) string {
 func c36FrameTerm(f c36Frame) string {
 	switch f.Kind {
 	case "data":
-		return App("C36.WData", N(uint64(f.Units)), Z(f.Sum), Opt(f.Ptr, Pair(N(f.Off), N(f.Len))))
+		return App("C36.WData", N(uint64(f.Sch)), N(uint64(f.Units)), Z(f.Sum), Opt(f.Ptr, Pair(N(f.Off), N(f.Len))))
 	case "exc":
 		return App("C36.WExc", B(f.Exc))
 	}
@@ -609,8 +721,13 @@ func c36Run(in c36In) CaseOut {
 	rowsSet, blobSet := map[int]bool{1: true}, map[int]bool{}
 	for _, c := range in.Calls {
 		blobSet[c.Script.N] = true
+		if c36IsStream(c.Method) {
+			rowsSet[c.Script.Var<<16|1] = true // the default turn of an exchange emits one row
+		}
 		for _, t := range c.Script.Turns {
-			rowsSet[t.Rows] = true
+			if t.Rows > 0 {
+				rowsSet[c.Script.Var<<16|t.Rows] = true
+			}
 		}
 		for _, it := range c.Items {
 			rowsSet[it.Rows] = true
@@ -626,7 +743,7 @@ func c36Run(in c36In) CaseOut {
 		sort.Ints(ks)
 		return ks
 	}
-	szi := ListOf(keys(rowsSet, 1), func(k int) string { return c36SzTerm(k, c36SizeInt(k)) })
+	szi := ListOf(keys(rowsSet, 1), func(k int) string { return c36SzTerm(k, c36SizeOut(k>>16, k&0xffff)) })
 	szb := ListOf(keys(blobSet, 0), func(k int) string { return c36SzTerm(k, c36SizeBlob(k)) })
 
 	coqIn := App("C36.Build_input", N(uint64(in.Data)), Z(vgirpc.VerifC35MinBatchBytes()), szi, szb, ListOf(in.Calls, c36CallTerm))
@@ -782,8 +899,12 @@ func (g *c36G) stream(method, adv, wish string, nItems int, pBig, pEnd, pPtr, pB
 	if g.r.Intn(4) == 0 && nt > 0 {
 		nt -= 1 // default turn for the last input
 	}
+	vr := 0
+	if g.r.Intn(2) == 0 {
+		vr = g.r.Intn(c36NVar)
+	}
 	return c36Call{Method: method, Adv: adv, Wish: wish, X: int64(g.r.Intn(100)),
-		Script: c36Script{Turns: g.turns(nt, ex, pBig, pEnd)}, Items: g.items(nItems, ex, pPtr, pBad), ReleaseNow: g.r.Intn(2) == 0}
+		Script: c36Script{Var: vr, Turns: g.turns(nt, ex, pBig, pEnd)}, Items: g.items(nItems, ex, pPtr, pBad), ReleaseNow: g.r.Intn(2) == 0}
 }
 func (g *c36G) gate() int {
 	return []int{48, 48, 48, 1, 64, 120}[g.r.Intn(6)]
@@ -954,6 +1075,30 @@ func c36GenInputs(r *rand.Rand, n int, tier string) []c36In {
 				canary(), bigBlob("good", "inline", true)}})
 		}
 	}
+	// per-call output schemas: call A, call B, call A again on ONE session, A and B distinct schemas
+	// with the same Arrow fingerprint (field metadata, schema metadata, fixed_size_binary width) or
+	// not; every batch big enough for the segment
+	for _, ab := range [][2]int{{1, 2}, {2, 1}, {0, 1}, {1, 0}, {0, 3}, {3, 2}, {4, 5}, {5, 4}, {0, 4}, {1, 1}} {
+		for _, m := range []string{"prod", "exch"} {
+			mk := func(vr int, val int64, rel bool) c36Call {
+				c := c36Call{Method: m, Adv: "good", Wish: "inline", X: 1, ReleaseNow: rel,
+					Script: c36Script{Var: vr, Turns: []c36Turn{emit(8, val), emit(16, val+1)}}}
+				for k := 0; k < 2; k++ {
+					it := c36Item{Wish: "inline"}
+					if m == "exch" {
+						it = c36Item{Wish: "ptr", Rows: 8, Val: int64(k + 1)}
+					}
+					c.Items = append(c.Items, it)
+				}
+				if m == "prod" {
+					c.Items = append(c.Items, c36Item{Wish: "inline"})
+				}
+				return c
+			}
+			out = append(out, c36In{Class: "schema-variants", Data: 16384, Calls: []c36Call{
+				mk(ab[0], 3, true), mk(ab[1], 5, false), mk(ab[0], 7, true), canary()}})
+		}
+	}
 	nb := len(out)
 	maxCalls := 8
 	if tier == "thorough" {
@@ -987,6 +1132,6 @@ func c36GenInputs(r *rand.Rand, n int, tier string) []c36In {
 
 func init() {
 	_ = json.Marshal
-	Register("C36", "histories of 1-8 (thorough 1-20) unary / producer / exchange calls with results and batches on both sides of the shm size gate (gate 48, also 1 / 64 / 120 in the random streams), turns that answer or fail (error, panic, nothing emitted, two batches, Finish on an exchange) after consuming an inline or pointer input, segment data areas from 1 byte to 16 KiB, every advertisement pattern (never, once, always, name only, size 0, another name), request and exchange-input batches sent inline / as pointer batches / as pointers to nowhere, release at once or at the end; each history is played through Server.Serve twice, by a client owning a real POSIX segment and by a client without one; boundary classes first, then honest clients (2/3), then unconstrained ones; non-trivial = at least two calls and at least one pointer batch travelled in either direction; distinct = distinct input JSON",
+	Register("C36", "histories of 1-8 (thorough 1-20) unary / producer / exchange calls with results and batches on both sides of the shm size gate (gate 48, also 1 / 64 / 120 in the random streams), stream methods whose init handler builds a fresh output schema per call among six variants (plain, field metadata a / b, schema metadata, fixed_size_binary 16 / 32: two groups of equal Arrow fingerprint) with every batch's decoding schema rendered in full and compared, turns that answer or fail (error, panic, nothing emitted, two batches, Finish on an exchange) after consuming an inline or pointer input, segment data areas from 1 byte to 16 KiB, every advertisement pattern (never, once, always, name only, size 0, another name), request and exchange-input batches sent inline / as pointer batches / as pointers to nowhere, release at once or at the end; each history is played through Server.Serve twice, by a client owning a real POSIX segment and by a client without one; boundary classes first, then honest clients (2/3), then unconstrained ones; non-trivial = at least two calls and at least one pointer batch travelled in either direction; distinct = distinct input JSON",
 		c36GenInputs, c36Run)
 }
